@@ -63,6 +63,44 @@ fn gen_program(entropy: &[u8]) -> Prog {
         cfg.def_names = RS_DEF_NAMES;
     }
     let (mut p, sc) = gen_prog(&mut e, &cfg);
+    // shapes the generator treats specially: result-like variants (std Result for Ok/Err,
+    // candid::MotokoResult for ok/err) in several spellings, as definitions and inline
+    if e.ratio(1, 3) {
+        use crate::refmodel::rtype::{Lab, Prim};
+        let spell: &[(&str, &str)] = &[("ok", "err"), ("Ok", "Err"), ("OK", "ERR"), ("ok", "Err"), ("Ok", "err"), ("ok", "error")];
+        let (a, b) = *e.pick(spell);
+        let pay = |e: &mut Ent| -> Ty {
+            match e.below(4) {
+                0 => Ty::Prim(Prim::Null),
+                1 => Ty::Prim(Prim::Text),
+                2 => Ty::Record(vec![(Lab::Named("code".into()), Ty::Prim(Prim::Nat16))]),
+                _ => Ty::Prim(Prim::Nat),
+            }
+        };
+        let mut fs = vec![(Lab::Named(a.into()), pay(&mut e)), (Lab::Named(b.into()), pay(&mut e))];
+        fs.sort_by_key(|f| f.0.id());
+        let v = Ty::Variant(fs);
+        let name = if p.env.get("transfer_result").is_none() { "transfer_result" } else { "transfer_result_2" };
+        if p.env.get(name).is_none() {
+            if e.bool() {
+                p.env.defs.push((name.to_string(), v));
+            } else {
+                // inline, below a record field and an option
+                p.env.defs.push((name.to_string(), Ty::Record(vec![(Lab::Named("status".into()), v.clone()), (Lab::Named("last".into()), Ty::opt(v))])));
+            }
+        }
+    }
+    // a generated name for an anonymous type that is also the name of a source definition,
+    // before or after it in name order
+    if e.ratio(1, 4) {
+        use crate::refmodel::rtype::{Lab, Prim};
+        let (outer, field, clash): (&str, &str, &str) = *e.pick(&[("a", "b", "AB"), ("a_b", "c", "ABC"), ("a", "b_c", "ABC"), ("foo", "bar", "FooBar"), ("node", "item", "NodeItem"), ("x", "y", "XY"), ("A", "b", "AB"), ("Foo", "bar", "FooBar"), ("List", "item", "ListItem"), ("A", "b_c", "ABC"), ("T", "x", "TX")]);
+        if p.env.get(outer).is_none() && p.env.get(clash).is_none() {
+            let inner = if e.bool() { Ty::Record(vec![(Lab::Named("x".into()), Ty::Prim(Prim::Nat))]) } else { Ty::Variant(vec![(Lab::Named("p".into()), Ty::Prim(Prim::Null)), (Lab::Named("q".into()), Ty::Prim(Prim::Text))]) };
+            p.env.defs.push((outer.to_string(), Ty::Record(vec![(Lab::Named(field.into()), inner)])));
+            p.env.defs.push((clash.to_string(), Ty::Record(vec![(Lab::Named("y".into()), Ty::Prim(Prim::Text))])));
+        }
+    }
     // the main service also takes and returns every definition, so that each
     // definition's emitted Rust type is named in a method signature
     let mut ms: Vec<(String, Ty)> = vec![];
